@@ -19,9 +19,16 @@ static bool g_bad_recv, g_bad_from, g_bad_added; /* some call had another receiv
 static size_t *g_added_ptr;
 
 /* the atomic counters: other threads change them at any time */
-static int64_t count_load(int64_t *p) { return nondet_i64(); }
+static bool g_staged_seen_empty;             /* a read of the receiver's own new_tasks_count_ returned 0 */
+static bool g_lock_busy;                     /* a try_to_lock on the queue's mutex failed */
+static int64_t count_load(int64_t *p)
+{
+  int64_t v = nondet_i64();
+  if (g_exp_recv != NULL && p == &g_exp_recv->new_tasks_count_ && v == 0) g_staged_seen_empty = true;
+  return v;
+}
 /* std::unique_lock<mutex_type> lk(mtx_, std::try_to_lock): may fail (held elsewhere, or spuriously) */
-static struct ulock ulock_try(struct mutex *m) { struct ulock l; l.m = m; l.owns = nondet_bool(); if (l.owns) g_lock_held = true; return l; }
+static struct ulock ulock_try(struct mutex *m) { struct ulock l; l.m = m; l.owns = nondet_bool(); if (l.owns) g_lock_held = true; else g_lock_busy = true; return l; }
 static bool ulock_owns(struct ulock *l) { return l->owns; }
 static void ulock_unlock(struct ulock *l) { VX_ASSERT(l->owns, "unlock of a unique_lock that does not own the mutex throws"); l->owns = false; g_lock_held = false; }
 static void ulock_dtor(struct ulock *l) { if (l->owns) { l->owns = false; g_lock_held = false; } }
@@ -44,7 +51,7 @@ static bool tq_cleanup_terminated_locked(struct tqq *self, bool delete_all)
 static bool tq_cleanup_terminated(struct tqq *self, bool delete_all) { return nondet_bool(); }
 
 #define TQ_PRE(self) (g_ana_calls == 0 && !g_lock_held && added == g_added_ptr && self == g_exp_recv && !g_bad_recv && !g_bad_from && !g_bad_added)
-#define TQ_GHOSTS g_lock_held, g_ana_calls, g_bad_recv, g_bad_from, g_bad_added
+#define TQ_GHOSTS g_lock_held, g_ana_calls, g_bad_recv, g_bad_from, g_bad_added, g_staged_seen_empty, g_lock_busy
 
 #ifdef U_WOAN_SELF
 //@FUNC
@@ -52,6 +59,10 @@ bool wait_or_add_new(struct tqq *self, bool running, size_t *added, bool steal)
 __CPROVER_requires(TQ_PRE(self) && g_exp_from == self)
 /* every conversion takes staged tasks of THIS queue and makes them pending tasks of THIS queue */
 __CPROVER_ensures(!g_bad_recv && !g_bad_from && !g_bad_added)
+/* the queue's OWN staged tasks are converted unless none were seen or the maintenance lock is busy -- in particular however many
+ * pending tasks the queue holds (C02: the staged retry helper of a deferred wake-up must become runnable although other tasks keep
+ * re-queueing themselves; only the STEALING overload may look at the pending count) */
+__CPROVER_ensures(g_ana_calls == 0 ==> (g_staged_seen_empty || g_lock_busy))
 __CPROVER_assigns(*added, TQ_GHOSTS)
 //@LIFT body
 #endif
@@ -73,6 +84,7 @@ void harness(void)
   q0.new_tasks_count_ = nondet_i64(); q0.work_items_count_ = nondet_i64(); q0.mtx_.id = 0; q0.parameters_.min_tasks_to_steal_staged_ = nondet_i64();
   q1.new_tasks_count_ = nondet_i64(); q1.work_items_count_ = nondet_i64(); q1.mtx_.id = 1; q1.parameters_.min_tasks_to_steal_staged_ = nondet_i64();
   vx_exc = 0; vx_caught = 0;
+  g_staged_seen_empty = false; g_lock_busy = false;
   g_lock_held = false; g_ana_calls = 0; g_bad_recv = g_bad_from = g_bad_added = false; g_exp_recv = &q0;
   size_t added = nondet_size(); g_added_ptr = &added;
   bool running = nondet_bool(), steal = nondet_bool();
